@@ -436,6 +436,10 @@ class MainLoop:
                 return
             finally:
                 self.screen.stop()
+        except BaseException:
+            # start() can fail after it has started the screen (hooking the screen may call the user's input filter)
+            self.screen.stop()
+            raise
 
         try:
             self.event_loop.run()
